@@ -544,6 +544,8 @@ def ev(t, val: Valuation):
         return _h("attr", _key(b), t[2])
     if k == "sub":
         b, i = ev(t[1], val), ev(t[2], val)
+        if isinstance(b, (tuple, bytes, str)) and isinstance(i, tuple) and i and i[0] == "slice" and all(x is None or (isinstance(x, int) and not isinstance(x, bool)) for x in i[1:]):
+            return b[slice(*i[1:])]
         if isinstance(b, (tuple, bytes, str)) and isinstance(i, int):
             try:
                 return b[i]
@@ -591,7 +593,21 @@ _MODELS = {
     "range": lambda *a: range(*[_int(x) for x in a]), ".bit_length": lambda x: _int(x).bit_length(),
     ".bit_count": lambda x: bin(_int(x)).count("1"), "pow": lambda *a: pow(*[_int(x) for x in a]),
     "hex": lambda x: hex(_int(x)), "bin": lambda x: bin(_int(x)),
+    # pure string methods (receiver first); anything that is not a str / bytes falls back to the uninterpreted value
+    ".removeprefix": lambda s, p: _txt(s).removeprefix(p), ".removesuffix": lambda s, p: _txt(s).removesuffix(p),
+    ".startswith": lambda s, p, *a: _txt(s).startswith(p, *a), ".endswith": lambda s, p, *a: _txt(s).endswith(p, *a),
+    ".split": lambda s, *a: tuple(_txt(s).split(*a)), ".rsplit": lambda s, *a: tuple(_txt(s).rsplit(*a)),
+    ".partition": lambda s, p: tuple(_txt(s).partition(p)), ".rpartition": lambda s, p: tuple(_txt(s).rpartition(p)),
+    ".lower": lambda s: _txt(s).lower(), ".upper": lambda s: _txt(s).upper(), ".casefold": lambda s: _txt(s).casefold(),
+    ".strip": lambda s, *a: _txt(s).strip(*a), ".lstrip": lambda s, *a: _txt(s).lstrip(*a), ".rstrip": lambda s, *a: _txt(s).rstrip(*a),
+    ".replace": lambda s, a, b, *c: _txt(s).replace(a, b, *c), ".find": lambda s, *a: _txt(s).find(*a),
 }
+
+
+def _txt(x):
+    if not isinstance(x, (str, bytes)):
+        raise TypeError("not text")
+    return x
 
 
 def _int(x):
